@@ -221,6 +221,9 @@ class Run:
             json.dump(ev, f, indent=1, default=str)
         for k, (f, n) in sorted(seen_known.items()):
             print(f"KNOWN-FINDING: property={self.prop} {f['what']} (id={k}, observed {n}x)")
+        for f in listed:
+            if f["id"] not in seen_known:
+                print(f"KNOWN-FINDING: property={self.prop} {f['what']} (id={f['id']}, listed, not triggered by this run's workload)")
         for n in res.notes[:20]:
             print(f"note: {n}")
         code = 0
